@@ -14,6 +14,15 @@ Oracle: mc/ref/constants.py (own binary Micheline -> Blake2b -> Base58 `expr` ha
 `resolve_global_constants(script)` must equal the substitution, must raise iff an unknown hash is reachable from the
 script, and must not modify its input or the registered expressions.  A subset goes through
 `ContractInterface.from_micheline(script, context)` as well.
+
+Two further families:
+  * literal sets ('lit'): one registered constant whose body carries a literal of every encoding-length class (ints of both
+    signs with 1, 2, 3 and more zarith bytes, strings / bytes of length 0, short, >255) bare, nested in data and in a PUSH;
+    the constant must be found under its Tezos hash (own encoder) and expand in every fitting slot;
+  * call histories ('history'): "unknown" is relative to the context asked.  For every constant j of every set, context A
+    (whole set) and context B (the set without j) are asked alternately (A-B-A, B-A-B) to expand the same script naming j,
+    and A is asked before / after `reset()` / after registering again; every call is judged against the reference with the
+    table of the context it was made on.
 """
 from __future__ import annotations
 
@@ -28,13 +37,16 @@ LEVEL = 'exploration'
 RULE = ('cases = (registered set, script[, entry point]); sets = every sequence of <=3 constants over the body templates '
         '(3 kinds; 0/1/2 holes; hole = plain | reference to an earlier constant of that kind | never-registered hash); scripts = '
         'skeleton with 14 typed slots, <=2 (<=3) of them a reference / unknown hash (at most one unknown); plus per set: registered keys, every '
-        'constant expanded at the root, malformed constant nodes.  Non-trivial = the script names at least one hash; '
+        'constant expanded at the root, malformed constant nodes; per set and constant: call histories A-B-A / B-A-B over two contexts '
+        '(with / without that constant) and expand-reset-expand-register-expand on one, script = root node or one occupied slot; literal '
+        'sets: one constant per (literal, embedding) over ints of both signs up to 2^64, strings and bytes up to 300 long.  Non-trivial = the script names at least one hash; '
         'distinct by (set, script, entry point)')
 BOUND = {
     'quick': 'all sets of <=2 constants (basic templates) and the connected 3-constant sets without dangling hashes x all '
-             'scripts with <=2 occupied slots; ContractInterface leg for sets of <=2 constants (scripts with <=1 occupied slot; <=2 for sets of <=1)',
+             'scripts with <=2 occupied slots; histories for every constant of every set (3 orders at the root and first fitting slot, A-B-A at the others); '
+             'literal sets: 27 literals x 3 data embeddings + 19 PUSH int x scripts with <=1 occupied slot; ContractInterface leg for sets of <=2 constants (scripts with <=1 occupied slot; <=2 for sets of <=1)',
     'thorough': 'all sets of <=3 constants (basic templates) x scripts with <=2 occupied slots; sets of <=2 constants over the '
-                'extended templates x scripts with <=3 occupied slots; ContractInterface leg for sets of <=2 constants (scripts with <=2 occupied slots)',
+                'extended templates x scripts with <=3 occupied slots; histories and literal sets as quick (literal sets x scripts with <=2 occupied slots); ContractInterface leg for sets of <=2 constants (scripts with <=2 occupied slots)',
 }
 ASSUMPTIONS = [
     'the Tezos expression hash of a registered expression is the script-expression hash of that expression as given to '
@@ -82,7 +94,19 @@ EXTENDED = {
                        ('empty-seq', '', lambda h: []),
                        ('lambda', 'TC', lambda h: {'prim': 'LAMBDA', 'args': [h[0], {'prim': 'unit'}, [h[1]]]})],
 }
-TEMPLATES = {'basic': BASIC, 'ext': EXTENDED}
+INT_LITERALS = [0, 1, -1, 63, -63, 64, -64, 127, -127, 128, -128, 8191, -8191, 8192, -8192, 2**31, -2**31, 2**64, -2**64]
+LITERALS = [{'int': ('-' if n < 0 else '') + format(abs(n), 'd')} for n in INT_LITERALS] + \
+           [{'string': x} for x in ('', 'a', 'constant', 'x' * 300)] + [{'bytes': x} for x in ('', '00', 'ff' * 32, '0a' * 300)]
+LIT = {
+    'T': [],
+    'D': [t for i in range(len(LITERALS)) for t in (
+        (f'lit{i}', '', lambda h, i=i: LITERALS[i]),
+        (f'some-lit{i}', '', lambda h, i=i: {'prim': 'Some', 'args': [LITERALS[i]]}),
+        (f'seq-pair-lit{i}', '', lambda h, i=i: [{'prim': 'Pair', 'args': [{'int': '1'}, LITERALS[i]]}, LITERALS[i]]))],
+    'C': [(f'push-int{i}', '', lambda h, i=i: {'prim': 'PUSH', 'args': [{'prim': 'int'}, LITERALS[i]]})
+          for i in range(len(INT_LITERALS))],
+}
+TEMPLATES = {'basic': BASIC, 'ext': EXTENDED, 'lit': LIT}
 MISSING = ref.expr_hash({'prim': 'chain_id'})     # named inside constants, never registered
 UNKNOWN = ref.expr_hash({'prim': 'never'})        # named inside scripts, never registered
 
@@ -158,7 +182,7 @@ def connected(spec):
 def sets_with_prefix(prefix, alpha, tier):
     """All registered sets that start with `prefix` (a list of 0..2 constant specs) in this tier."""
     yield prefix
-    if alpha == 'ext' or len(prefix) < 2:
+    if alpha in ('ext', 'lit') or len(prefix) < 2:
         return
     kinds = [c[0] for c in prefix]
     for c2 in constant_choices(kinds, alpha, allow_missing=(tier == 'thorough')):
@@ -297,6 +321,9 @@ def run_case(case, ctx=None):
         return [(f'nested constant named by the hash of its expanded form (Octez keying): {res} to pytezos (not judged)',
                  None, '', True)]
 
+    if entry == 'history':
+        return run_history(case, bodies, hashes, kinds, table)
+
     script = make_script(case['script'], hashes, kinds)
     malformed = [c[1] for _, c in case['script'] if isinstance(c, list)]
     judged_malformed = [m for m in malformed if m in ('badsum', 'empty')]      # plain unknown strings
@@ -361,6 +388,57 @@ def run_case(case, ctx=None):
     return out
 
 
+def run_history(case, bodies, hashes, kinds, table):
+    """Several calls on two contexts (A: whole set, B: the set without constant j) or on A around reset(); every call is
+    judged against the reference with the table of the context it is made on."""
+    j, slot, order = case['const'], case['slot'], case['order']
+    node = cref(hashes[j]) if slot == 'root' else make_script([[slot, j]], hashes, kinds)
+    bodies_b = [b for b, h in zip(bodies, hashes) if h != hashes[j]]
+    table_b = {h: b for h, b in table.items() if h != hashes[j]}
+    a = new_context(bodies)
+    if order == 'reset':
+        steps = [('A', a, table, None), ('A after reset()', a, {}, 'reset'), ('A after registering again', a, table, 'register')]
+    else:
+        b = new_context(bodies_b)
+        ctxs = {'A': ('A (knows the constant)', a, table), 'B': ('B (does not know it)', b, table_b)}
+        steps = [ctxs[c] + (None,) for c in order]
+    out = []
+    for i, (who, ctx, tbl, before) in enumerate(steps):
+        if before == 'reset':
+            ctx.reset()
+        elif before == 'register':
+            for body in bodies:
+                ctx.register_global_constant(copy.deepcopy(body))
+        try:
+            want = ref.expand(node, tbl)
+        except ref.UnknownConstant:
+            want = None
+        pristine = copy.deepcopy(node)
+        try:
+            got = ('ok', ctx.resolve_global_constants(node))
+        except Exception as e:  # noqa
+            got = ('raise', f'{type(e).__name__}: {e}')
+        detail = f'order={order} call {i + 1} on context {who} node={"root" if slot == "root" else "slot %d" % slot} body={bodies[j]} got={got}'
+        if want is None:
+            ok = got[0] == 'raise'
+            d = None if ok else ('unknown hash expanded without error' if i == 0 else
+                                 'hash unknown to the context asked is expanded after an earlier call (other context / before reset) expanded it')
+            out.append((f'history {order} call {i + 1}: unknown to {who.split(" (")[0]}: ' + ('raises' if ok else 'EXPANDED'), d, detail, False))
+        else:
+            ok = got == ('ok', want)
+            d = None if ok else ('wrong expansion: constant node at the root' if i == 0 and slot == 'root' else
+                                 'wrong expansion: direct reference' if i == 0 else
+                                 'expansion of a registered constant fails or differs after an earlier call (other context / before reset)')
+            out.append((f'history {order} call {i + 1}: known to {who.split(" (")[0]}: ' + ('expanded' if ok else 'WRONG'), d,
+                        detail + f' expected={want}', False))
+        if node != pristine:
+            out.append(('input modified', 'expansion modifies the script it is given', detail, False))
+        if ctx.global_constants != tbl:
+            out.append(('registered constants modified', 'expansion modifies a registered constant',
+                        f'{detail} registry={ctx.global_constants}', False))
+    return out
+
+
 # --- shards ------------------------------------------------------------------------------------------------------------
 def shards(tier, seed):
     out = [('basic', [])]
@@ -368,6 +446,8 @@ def shards(tier, seed):
         out.append(('basic', [c0]))
         for c1 in constant_choices([c0[0]], 'basic'):
             out.append(('basic', [c0, c1]))
+    for c0 in constant_choices([], 'lit', allow_missing=False):
+        out.append(('lit', [c0]))
     if tier == 'thorough':
         out.append(('ext', []))
         for c0 in constant_choices([], 'ext'):
@@ -391,7 +471,13 @@ def cases_of(spec, tier):
             yield dict(base, entry='root', const=j)
             if any(isinstance(f, int) or f == 'missing' for f in c[2]):
                 yield dict(base, entry='tezos-hash', const=j)
+            slots = ['root'] + [i for i, k in enumerate(SLOT_KIND) if k == c[0]]
+            for si, slot in enumerate(slots):
+                for order in (('ABA', 'BAB', 'reset') if si < 2 else ('ABA',)):
+                    yield dict(base, entry='history', const=j, slot=slot, order=order)
         max_slots = 3 if (tier == 'thorough' and alpha == 'ext') else 2
+        if alpha == 'lit':
+            max_slots = 2 if tier == 'thorough' else 1
         iface_slots = -1
         if alpha == 'basic' and len(s) <= 2:
             iface_slots = 2 if (tier == 'thorough' or len(s) <= 1) else 1
@@ -399,7 +485,7 @@ def cases_of(spec, tier):
             yield dict(base, script=ss)
             if len(ss) <= iface_slots:
                 yield dict(base, script=ss, entry='interface')
-        if len(s) <= 1:
+        if len(s) <= 1 and alpha != 'lit':
             for slot in range(NSLOTS):
                 for m in MALFORMED:
                     yield dict(base, script=[[slot, ['malformed', m]]])
@@ -414,8 +500,9 @@ def run_shard(spec, tier):
             cur_set = case['set']
             ctx = new_context(build_set(cur_set, case['alpha'])[0])
         r.ev()
-        if case.get('script') or case.get('entry') in ('root', 'tezos-hash'):
-            r.nt((case['alpha'], case['set'], case.get('script'), case.get('entry'), case.get('const')))
+        if case.get('script') or case.get('entry') in ('root', 'tezos-hash', 'history'):
+            r.nt((case['alpha'], case['set'], case.get('script'), case.get('entry'), case.get('const'), case.get('slot'),
+                  case.get('order')))
         for label, desc, detail, nov in run_case(case, ctx):
             r.out(label)
             if nov:
